@@ -25,6 +25,7 @@ KF_EXPLAIN = "C35-explain-stringified-plans-dropped"
 KF_COPY = "C35-copy-to-options-dropped"
 KF_LIMIT = "C35-limit-zero-skip-expression-dropped"
 KF_QUALIFY = "C35-unqualified-column-requalified-by-decoder"
+KF_FETCH = "C35-limit-fetch-none-decoded-as-i64-max"
 
 # (key, required substring of the original plan text, normaliser applied to both lines of every differing line pair)
 TEXT_CLASSES = [
@@ -32,6 +33,7 @@ TEXT_CLASSES = [
     (KF_CTE, "RecursiveQuery", lambda t: re.sub(r"(TableScan: \S+) projection=\[[^\]]*\]", r"\1", t)),
     (KF_EMPTY, "EmptyRelation:", lambda t: re.sub(r"EmptyRelation: rows=(\d+) \[[^\]]*\]", r"EmptyRelation: rows=\1 []", t)),
     (KF_COPY, "CopyTo:", lambda t: re.sub(r"options: \([^)]*\)", "options: ()", t)),
+    (KF_FETCH, "Limit:", lambda t: re.sub(r"(Limit: skip=\d+, fetch=)(None|9223372036854775807)\b", r"\1None", t)),
     (KF_QUALIFY, "", lambda t: re.sub(r"\b[A-Za-z_]\w*\.(?=[A-Za-z_])", "", t)),
 ]
 
@@ -41,7 +43,9 @@ def classify_plan(st):
     why, plan = st.get("why") or "", st.get("plan") or ""
     if "Explain.stringified_plans" in why:
         return KF_EXPLAIN
-    if re.search(r"expression of Limit differs: Literal\(Int64\(0\), None\) vs ", why):
+    if why.startswith("decoding failed: Schema error: No field named") and re.search(r"EmptyRelation: rows=\d+ \[[^\]]+\]", plan):
+        return KF_EMPTY      # the decoded EmptyRelation has no columns, so the nodes above it cannot be rebuilt
+    if re.search(r"expression of Limit differs: Literal\(Int64\(0\), None\) vs |not PartialEq-equal to the original: Limit: number of expressions differs", why):
         return KF_LIMIT
     m = re.search(r"expression of \w+ differs: (.*) vs (.*)$", why, re.S)
     if m and "Placeholder(Placeholder" in m.group(1):
